@@ -735,24 +735,36 @@ pub fn fuzz_campaign_sub(run: &Run, target: &str, sub_f: Option<(&str, &CaseFn<'
         if let Some(sub) = sub {
             cmd.env("WF_FUZZ_SUB", format!("{}:{}", run.prop, sub));
         }
-        cmd.stdout(Stdio::null()).stderr(Stdio::piped());
+        // the jobs run side by side: their (chatty) stderr goes to a file each - a pipe that is
+        // only drained when its job is waited for would stall every job but the first
+        let log = fuzz_dir.join("corpus-run").join(format!("{label}-{j}.log"));
+        match std::fs::File::create(&log) {
+            Ok(f) => {
+                cmd.stdout(Stdio::null()).stderr(Stdio::from(f));
+            }
+            Err(_) => {
+                cmd.stdout(Stdio::null()).stderr(Stdio::null());
+            }
+        }
         match cmd.spawn() {
-            Ok(c) => children.push((j, c, work)),
+            Ok(c) => children.push((j, c, work, log)),
             Err(e) => eprintln!("cannot start fuzzer job {j}: {e}"),
         }
     }
     let mut execs = 0u64;
     let mut crashed = 0;
-    for (j, c, work) in children {
-        let out = c.wait_with_output();
-        if let Ok(o) = out {
-            let err = String::from_utf8_lossy(&o.stderr);
+    for (j, mut c, work, log) in children {
+        let status = c.wait();
+        let err_bytes = std::fs::read(&log).unwrap_or_default();
+        let _ = std::fs::remove_file(&log);
+        if let Ok(status) = status {
+            let err = String::from_utf8_lossy(&err_bytes);
             for line in err.lines() {
                 if let Some(n) = line.strip_prefix("stat::number_of_executed_units:") {
                     execs += n.trim().parse::<u64>().unwrap_or(0);
                 }
             }
-            if !o.status.success() {
+            if !status.success() {
                 crashed += 1;
                 let tail: String = err.lines().rev().take(30).collect::<Vec<_>>().into_iter().rev().collect::<Vec<_>>().join("\n");
                 eprintln!("fuzzer job {j} of {target} stopped abnormally:\n{tail}");
